@@ -10,8 +10,11 @@ source window of that same epoch, and entries of other epochs are left untouched
 Proved as well: **mode `closest` (the default) returns a nearest source sample of the query's own
 epoch** (`vfT_closest`, with the inner-scan specification `vfInner_closest` and the cursor invariant
 `left_invariant`), for non-decreasing queries and samples of any lengths, ties and duplicates included.
-Modes `before` / `after` (latest-before / earliest-after, NaN when there is none) are decided by the
-oracle + correspondence run.
+So do **mode `after`** (`vfT_after`: the earliest sample at or after the query, NaN exactly when the
+epoch holds none) and **mode `before`** (`vfT_before`: the latest sample at or before the query — any
+one of equal timestamps — NaN exactly when the epoch holds none, including the single-source-sample
+case repaired by `fix:` eba7cfb).  The NaN/dtype glue of `_value_from` and `interpolate` are decided by
+the oracle + correspondence run.
 -/
 namespace Pyn.C06
 open Pyn
@@ -210,6 +213,342 @@ theorem vfT_closest (ts tt : Array Int) (hsq : Sorted ts) (hss : Sorted tt) (max
             (hsq t (t+1) (by omega) (by omega) (by omega)) h0)
         (by omega) p (by omega) hp2
       exact this
+
+
+
+/-! ## mode `after` (2): the earliest source sample at or after the query, NaN when there is none -/
+
+/-- inner scan, mode after: `interval = tt[i-1] - x`; walks while the current sample is before the query -/
+theorem vfInner_after (tt : Array Int) (hss : Sorted tt) (x : Int) (maxi : Nat) (hmax : maxi ≤ tt.size) (i : Nat)
+    (interval : Int) (cur : Option Nat) (nanc : Bool) (hi1 : 1 ≤ i) (hi : i ≤ maxi) (hc : cur = some (i - 1))
+    (hint : interval = tt[i - 1]'(by omega) - x) :
+    let r := vfInner tt x 2 maxi hmax i interval cur nanc
+    ∃ j, ∃ hj : j < maxi, r.1 = j + 1 ∧ i - 1 ≤ j ∧
+      (∀ q, i - 1 ≤ q → q < j → (hq : q < tt.size) → tt[q] < x) ∧
+      ((tt[j]'(by omega) ≥ x ∧ r.2.1 = some j) ∨ (tt[j]'(by omega) < x ∧ j + 1 = maxi)) := by
+  induction hn : maxi - i generalizing i interval cur nanc with
+  | zero =>
+    intro r
+    have hr : r = (i, cur, nanc) := by
+      show vfInner tt x 2 maxi hmax i interval cur nanc = _
+      unfold vfInner
+      have : ¬ i < maxi := by omega
+      simp only [dif_neg this]
+    refine ⟨i - 1, by omega, by rw [hr]; simp; omega, Nat.le_refl _, fun q h1 h2 => by omega, ?_⟩
+    by_cases hge : tt[i - 1]'(by omega) ≥ x
+    · exact Or.inl ⟨hge, by rw [hr]; exact hc⟩
+    · exact Or.inr ⟨by omega, by omega⟩
+  | succ n ih =>
+    intro r
+    have hlt : i < maxi := by omega
+    by_cases hb : interval ≥ 0
+    · -- break at once: the current sample is at or after the query
+      have hnew : tt[i]'(by omega) - x ≥ 0 := by
+        have := hss (i-1) i (by omega) (by omega) (by omega); omega
+      have hr : r = (i, cur, false) := by
+        show vfInner tt x 2 maxi hmax i interval cur nanc = _
+        unfold vfInner
+        simp only [dif_pos hlt]
+        have hv : vfNew 2 (tt[i]'(by omega) - x) = tt[i]'(by omega) - x := by simp [vfNew]
+        have hbr : vfBreak 2 (tt[i]'(by omega) - x) interval = true := by
+          simp [vfBreak, hb]
+        have hnan : vfNan 2 (tt[i]'(by omega) - x) interval = false := by
+          simp [vfNan]; omega
+        simp only [hv, hbr, hnan, if_true, Bool.false_eq_true, if_false]
+      refine ⟨i - 1, by omega, by rw [hr]; simp; omega, Nat.le_refl _, fun q h1 h2 => by omega, Or.inl ⟨by omega, by rw [hr]; exact hc⟩⟩
+    · have hneg : interval < 0 := by omega
+      have hr : r = vfInner tt x 2 maxi hmax (i+1) (tt[i]'(by omega) - x) (some i) (vfNan 2 (tt[i]'(by omega) - x) interval) := by
+        show vfInner tt x 2 maxi hmax i interval cur nanc = _
+        conv => lhs; unfold vfInner
+        simp only [dif_pos hlt]
+        have hv : vfNew 2 (tt[i]'(by omega) - x) = tt[i]'(by omega) - x := by simp [vfNew]
+        have hbr : vfBreak 2 (tt[i]'(by omega) - x) interval = false := by
+          simp [vfBreak]; omega
+        simp only [hv, hbr, Bool.false_eq_true, if_false]
+      obtain ⟨j, a1, a2, a3, a4, a5⟩ := ih (i+1) (tt[i]'(by omega) - x) (some i) (vfNan 2 (tt[i]'(by omega) - x) interval)
+        (by omega) (by omega) (by simp) (by simp) (by omega)
+      refine ⟨j, a1, by rw [hr]; exact a2, by omega, ?_, ?_⟩
+      · intro q h1 h2 hq
+        by_cases hqi : q = i - 1
+        · subst hqi; omega
+        · exact a4 q (by simp; omega) h2 hq
+      · rcases a5 with ⟨b1, b2⟩ | b
+        · exact Or.inl ⟨b1, by rw [hr]; exact b2⟩
+        · exact Or.inr b
+
+/-- **mode `after` picks the earliest source sample at or after the query, within the query's own
+epoch, and NaN exactly when the epoch holds none.**  Non-decreasing queries and samples, any lengths. -/
+theorem vfT_after (ts tt : Array Int) (hsq : Sorted ts) (hss : Sorted tt) (maxt maxi : Nat) (hmt : maxt ≤ ts.size)
+    (hmi : maxi ≤ tt.size) (lo t i : Nat) (hi : i < maxi) (hlo : lo ≤ i) (idx : Array (Option Nat)) (hsz : maxt ≤ idx.size)
+    (hleft : (ht : t < maxt) → ∀ q, lo ≤ q → q < i → (hq : q < tt.size) → tt[q] < ts[t]'(by omega)) :
+    ∀ p, t ≤ p → (hp : p < maxt) →
+      (∃ j, ∃ hj : j < maxi, (vfT ts tt 2 maxt maxi hmt hmi t i hi idx)[p]? = some (some j) ∧ lo ≤ j ∧
+          tt[j]'(by omega) ≥ ts[p]'(by omega) ∧
+          ∀ q, lo ≤ q → (hq : q < maxi) → tt[q]'(by omega) ≥ ts[p]'(by omega) → j ≤ q) ∨
+      ((vfT ts tt 2 maxt maxi hmt hmi t i hi idx)[p]? = some none ∧
+          ∀ q, lo ≤ q → (hq : q < maxi) → tt[q]'(by omega) < ts[p]'(by omega)) := by
+  induction hn : maxt - t generalizing t i idx with
+  | zero => intro p h1 h2; omega
+  | succ n ih =>
+    have ht : t < maxt := by omega
+    intro p hp1 hp2
+    unfold vfT
+    simp only [dif_pos ht]
+    have hv : vfNew 2 (tt[i]'(by omega) - ts[t]) = tt[i]'(by omega) - ts[t] := by simp [vfNew]
+    simp only [hv]
+    have hnan0 : (if (2 : Nat) = 0 then decide (tt[i]'(by omega) - ts[t] > 0) else false) = false := by simp
+    simp only [hnan0]
+    obtain ⟨j, hj, a2, a3, a4, a5⟩ := vfInner_after tt hss ts[t] maxi hmi (i+1) (tt[i]'(by omega) - ts[t]) (some i) false
+      (by omega) (by omega) (by simp) (by simp)
+    simp only [Nat.add_sub_cancel] at a3 a4
+    have hcursor : (vfInner tt ts[t] 2 maxi hmi (i + 1) (tt[i]'(by omega) - ts[t]) (some i) false).1 - 1 = j := by omega
+    have hbefore : ∀ q, lo ≤ q → q < j → (hq : q < tt.size) → tt[q] < ts[t] := by
+      intro q h1 h2 hq
+      by_cases hqi : q < i
+      · exact hleft ht q h1 hqi hq
+      · exact a4 q (by omega) h2 hq
+    -- the stored value
+    have hidx : ∀ (h' : (vfInner tt ts[t] 2 maxi hmi (i + 1) (tt[i]'(by omega) - ts[t]) (some i) false).1 - 1 < tt.size),
+        tt[(vfInner tt ts[t] 2 maxi hmi (i + 1) (tt[i]'(by omega) - ts[t]) (some i) false).1 - 1]'h' = tt[j]'(by omega) := by
+      intro h'; congr 1
+    generalize hcv : (if (vfInner tt ts[t] 2 maxi hmi (i + 1) (tt[i]'(by omega) - ts[t]) (some i) false).1 = maxi then _ else _) = v
+    have hsv : (v = some j ∧ tt[j]'(by omega) ≥ ts[t]) ∨ (v = none ∧ tt[j]'(by omega) < ts[t] ∧ j + 1 = maxi) := by
+      rcases a5 with ⟨b1, b2⟩ | ⟨b1, b2⟩
+      · left
+        refine ⟨?_, b1⟩
+        rw [← hcv]
+        have hnot : ¬ (tt[j]'(by omega) - ts[t] < 0) := by omega
+        split
+        · simp [hidx, hnot, b2]
+        · exact b2
+      · right
+        refine ⟨?_, b1, b2⟩
+        rw [← hcv]
+        have hm : (vfInner tt ts[t] 2 maxi hmi (i + 1) (tt[i]'(by omega) - ts[t]) (some i) false).1 = maxi := by omega
+        have hlt0 : (tt[j]'(by omega) - ts[t] < 0) := by omega
+        rw [if_pos hm]
+        simp only [hidx]
+        simp [hlt0]
+    by_cases hpt : p = t
+    · subst hpt
+      have hw := vfT_window ts tt 2 maxt maxi hmt hmi (p+1) _ (by omega : (vfInner tt ts[p] 2 maxi hmi (i + 1) (tt[i]'(by omega) - ts[p]) (some i) false).1 - 1 < maxi)
+        (idx.setIfInBounds p v) lo (by omega)
+      obtain ⟨w1, w2⟩ := hw
+      have hp' : p < (idx.setIfInBounds p v).size := by simp; omega
+      have hkeep := (w2 p hp' (by rw [w1]; exact hp')).1 (Or.inl (by omega))
+      have hval := (Array.getElem?_eq_getElem (by rw [w1]; exact hp')).trans (congrArg some hkeep)
+      have hset : (idx.setIfInBounds p v)[p]'hp' = v := by simp [Array.getElem_setIfInBounds]
+      rw [hset] at hval
+      rcases hsv with ⟨e1, e2⟩ | ⟨e1, e2, e3⟩
+      · left
+        refine ⟨j, hj, by rw [hval, e1], by omega, e2, ?_⟩
+        intro q hq1 hq2 hq3
+        by_cases hqj : q < j
+        · have := hbefore q hq1 hqj (by omega); omega
+        · omega
+      · right
+        refine ⟨by rw [hval, e1], ?_⟩
+        intro q hq1 hq2
+        by_cases hqj : q < j
+        · exact hbefore q hq1 hqj (by omega)
+        · have : q = j := by omega
+          subst this; exact e2
+    · exact ih (t+1) _ (by omega) (by omega) (idx.setIfInBounds t v) (by simp; exact hsz)
+        (fun ht' q hq1 hq2 hq => by
+          rw [hcursor] at hq2
+          have := hbefore q hq1 hq2 hq
+          have := hsq t (t+1) (by omega) (by omega) (by omega)
+          omega)
+        (by omega) p (by omega) hp2
+
+/-! ## mode `before` (0): the latest source sample at or before the query, NaN when there is none -/
+
+theorem vfInner_before (tt : Array Int) (hss : Sorted tt) (x : Int) (maxi : Nat) (hmax : maxi ≤ tt.size) (i : Nat)
+    (interval : Int) (cur : Option Nat) (nanc : Bool) (hi1 : 1 ≤ i) (hi : i ≤ maxi) (hc : cur = some (i - 1))
+    (hint : interval = tt[i - 1]'(by omega) - x) (hnanc : nanc = decide (interval > 0)) :
+    let r := vfInner tt x 0 maxi hmax i interval cur nanc
+    ∃ j, ∃ hj : j < maxi, r.1 = j + 1 ∧ i - 1 ≤ j ∧
+      ((tt[j]'(by omega) ≤ x ∧ r.2.1 = some j ∧ (r.1 = maxi → r.2.2 = false) ∧
+          ((hj1 : j + 1 < maxi) → tt[j + 1]'(by omega) > x ∨ tt[j]'(by omega) = x)) ∨
+       (tt[j]'(by omega) > x ∧ j = i - 1 ∧ (r.1 ≠ maxi → r.2.1 = none) ∧ (r.1 = maxi → r.2.2 = true))) := by
+  induction hn : maxi - i generalizing i interval cur nanc with
+  | zero =>
+    intro r
+    have hr : r = (i, cur, nanc) := by
+      show vfInner tt x 0 maxi hmax i interval cur nanc = _
+      unfold vfInner
+      have : ¬ i < maxi := by omega
+      simp only [dif_neg this]
+    refine ⟨i - 1, by omega, by rw [hr]; simp; omega, Nat.le_refl _, ?_⟩
+    by_cases hle : tt[i - 1]'(by omega) ≤ x
+    · left
+      refine ⟨hle, by rw [hr]; exact hc, fun _ => ?_, fun h => by omega⟩
+      rw [hr, hnanc]; simp; omega
+    · right
+      refine ⟨by omega, rfl, fun h => ?_, fun _ => ?_⟩
+      · rw [hr] at h; simp at h; omega
+      · rw [hr, hnanc]; simp; omega
+  | succ n ih =>
+    intro r
+    have hlt : i < maxi := by omega
+    have hv : vfNew 0 (tt[i]'(by omega) - x) = tt[i]'(by omega) - x := by simp [vfNew]
+    have hmono := hss (i-1) i (by omega) (by omega) (by omega)
+    by_cases hpos : interval > 0
+    · -- the cursor sample is after the query: break at once with NaN
+      have hr : r = (i, none, true) := by
+        show vfInner tt x 0 maxi hmax i interval cur nanc = _
+        unfold vfInner
+        simp only [dif_pos hlt, hv]
+        have hbr : vfBreak 0 (tt[i]'(by omega) - x) interval = true := by
+          simp [vfBreak]; omega
+        have hnan : vfNan 0 (tt[i]'(by omega) - x) interval = true := by simp [vfNan, hpos]
+        simp only [hbr, hnan, if_true]
+      refine ⟨i - 1, by omega, by rw [hr]; simp; omega, Nat.le_refl _, Or.inr ⟨by omega, rfl, fun _ => by rw [hr], fun h => ?_⟩⟩
+      rw [hr] at h; simp at h; omega
+    · by_cases hz : interval = 0
+      · have hr : r = (i, cur, false) := by
+          show vfInner tt x 0 maxi hmax i interval cur nanc = _
+          unfold vfInner
+          simp only [dif_pos hlt, hv]
+          have hbr : vfBreak 0 (tt[i]'(by omega) - x) interval = true := by
+            simp [vfBreak, hz]
+          have hnan : vfNan 0 (tt[i]'(by omega) - x) interval = false := by simp [vfNan, hz]
+          simp only [hbr, hnan, if_true, Bool.false_eq_true, if_false]
+        refine ⟨i - 1, by omega, by rw [hr]; simp; omega, Nat.le_refl _, Or.inl ⟨by omega, by rw [hr]; exact hc, fun _ => by rw [hr], fun _ => Or.inr (by omega)⟩⟩
+      · have hneg : interval < 0 := by omega
+        by_cases hnew : tt[i]'(by omega) - x > 0
+        · have hr : r = (i, cur, false) := by
+            show vfInner tt x 0 maxi hmax i interval cur nanc = _
+            unfold vfInner
+            simp only [dif_pos hlt, hv]
+            have hbr : vfBreak 0 (tt[i]'(by omega) - x) interval = true := by
+              simp [vfBreak]; omega
+            have hnan : vfNan 0 (tt[i]'(by omega) - x) interval = false := by simp [vfNan]; omega
+            simp only [hbr, hnan, if_true, Bool.false_eq_true, if_false]
+          refine ⟨i - 1, by omega, by rw [hr]; simp; omega, Nat.le_refl _, Or.inl ⟨by omega, by rw [hr]; exact hc, fun _ => by rw [hr], fun hj1 => Or.inl ?_⟩⟩
+          have e : i - 1 + 1 = i := by omega
+          simp only [e]; omega
+        · have hr : r = vfInner tt x 0 maxi hmax (i+1) (tt[i]'(by omega) - x) (some i) false := by
+            show vfInner tt x 0 maxi hmax i interval cur nanc = _
+            conv => lhs; unfold vfInner
+            simp only [dif_pos hlt, hv]
+            have hbr : vfBreak 0 (tt[i]'(by omega) - x) interval = false := by
+              simp [vfBreak]; omega
+            have hnan : vfNan 0 (tt[i]'(by omega) - x) interval = false := by simp [vfNan]; omega
+            simp only [hbr, hnan, Bool.false_eq_true, if_false]
+          obtain ⟨j, hj, a2, a3, a5⟩ := ih (i+1) (tt[i]'(by omega) - x) (some i) false
+            (by omega) (by omega) (by simp) (by simp) (by simp; omega) (by omega)
+          refine ⟨j, hj, by rw [hr]; exact a2, by omega, ?_⟩
+          rcases a5 with ⟨b1, b2, b3, b4⟩ | ⟨b1, b2, _, _⟩
+          · exact Or.inl ⟨b1, by rw [hr]; exact b2, by rw [hr]; exact b3, b4⟩
+          · -- impossible: the sample at i is ≤ x and j = i
+            exfalso
+            simp only [Nat.add_sub_cancel] at b2
+            subst b2; omega
+
+/-- **mode `before` picks the latest source sample at or before the query, within the query's own
+epoch, and NaN exactly when the epoch holds none** (after `fix:` eba7cfb also when the epoch holds a
+single source sample).  Non-decreasing queries and samples, any lengths, duplicates included. -/
+theorem vfT_before (ts tt : Array Int) (hsq : Sorted ts) (hss : Sorted tt) (maxt maxi : Nat) (hmt : maxt ≤ ts.size)
+    (hmi : maxi ≤ tt.size) (lo t i : Nat) (hi : i < maxi) (hlo : lo ≤ i) (idx : Array (Option Nat)) (hsz : maxt ≤ idx.size)
+    (hinv : (ht : t < maxt) → i = lo ∨ tt[i]'(by omega) ≤ ts[t]'(by omega)) :
+    ∀ p, t ≤ p → (hp : p < maxt) →
+      (∃ j, ∃ hj : j < maxi, (vfT ts tt 0 maxt maxi hmt hmi t i hi idx)[p]? = some (some j) ∧ lo ≤ j ∧
+          tt[j]'(by omega) ≤ ts[p]'(by omega) ∧
+          ∀ q, lo ≤ q → (hq : q < maxi) → tt[q]'(by omega) ≤ ts[p]'(by omega) → tt[q]'(by omega) ≤ tt[j]'(by omega)) ∨
+      ((vfT ts tt 0 maxt maxi hmt hmi t i hi idx)[p]? = some none ∧
+          ∀ q, lo ≤ q → (hq : q < maxi) → tt[q]'(by omega) > ts[p]'(by omega)) := by
+  induction hn : maxt - t generalizing t i idx with
+  | zero => intro p h1 h2; omega
+  | succ n ih =>
+    have ht : t < maxt := by omega
+    intro p hp1 hp2
+    unfold vfT
+    simp only [dif_pos ht]
+    have hv : vfNew 0 (tt[i]'(by omega) - ts[t]) = tt[i]'(by omega) - ts[t] := by simp [vfNew]
+    simp only [hv]
+    have hnan0 : (if True then decide (tt[i]'(by omega) - ts[t] > 0) else false) = decide (tt[i]'(by omega) - ts[t] > 0) := by simp
+    simp only [hnan0]
+    obtain ⟨j, hj, a2, a3, a5⟩ := vfInner_before tt hss ts[t] maxi hmi (i+1) (tt[i]'(by omega) - ts[t]) (some i)
+      (decide (tt[i]'(by omega) - ts[t] > 0)) (by omega) (by omega) (by simp) (by simp) rfl
+    have a3' : i ≤ j := by omega
+    have a5' : (tt[j]'(by omega) ≤ ts[t] ∧ (vfInner tt ts[t] 0 maxi hmi (i + 1) (tt[i]'(by omega) - ts[t]) (some i) (decide (tt[i]'(by omega) - ts[t] > 0))).2.1 = some j ∧
+          ((vfInner tt ts[t] 0 maxi hmi (i + 1) (tt[i]'(by omega) - ts[t]) (some i) (decide (tt[i]'(by omega) - ts[t] > 0))).1 = maxi →
+            (vfInner tt ts[t] 0 maxi hmi (i + 1) (tt[i]'(by omega) - ts[t]) (some i) (decide (tt[i]'(by omega) - ts[t] > 0))).2.2 = false) ∧
+          ((hj1 : j + 1 < maxi) → tt[j + 1]'(by omega) > ts[t] ∨ tt[j]'(by omega) = ts[t])) ∨
+        (tt[j]'(by omega) > ts[t] ∧ j = i ∧
+          ((vfInner tt ts[t] 0 maxi hmi (i + 1) (tt[i]'(by omega) - ts[t]) (some i) (decide (tt[i]'(by omega) - ts[t] > 0))).1 ≠ maxi →
+            (vfInner tt ts[t] 0 maxi hmi (i + 1) (tt[i]'(by omega) - ts[t]) (some i) (decide (tt[i]'(by omega) - ts[t] > 0))).2.1 = none) ∧
+          ((vfInner tt ts[t] 0 maxi hmi (i + 1) (tt[i]'(by omega) - ts[t]) (some i) (decide (tt[i]'(by omega) - ts[t] > 0))).1 = maxi →
+            (vfInner tt ts[t] 0 maxi hmi (i + 1) (tt[i]'(by omega) - ts[t]) (some i) (decide (tt[i]'(by omega) - ts[t] > 0))).2.2 = true)) := by
+      rcases a5 with b | ⟨b1, b2, b3, b4⟩
+      · exact Or.inl b
+      · exact Or.inr ⟨b1, by omega, b3, b4⟩
+    clear a5
+    have hcursor : (vfInner tt ts[t] 0 maxi hmi (i + 1) (tt[i]'(by omega) - ts[t]) (some i) (decide (tt[i]'(by omega) - ts[t] > 0))).1 - 1 = j := by omega
+    generalize hcv : (if (vfInner tt ts[t] 0 maxi hmi (i + 1) (tt[i]'(by omega) - ts[t]) (some i) (decide (tt[i]'(by omega) - ts[t] > 0))).1 = maxi then _ else _) = v
+    have hsv : (v = some j ∧ tt[j]'(by omega) ≤ ts[t] ∧ ((hj1 : j + 1 < maxi) → tt[j + 1]'(by omega) > ts[t] ∨ tt[j]'(by omega) = ts[t])) ∨
+        (v = none ∧ tt[j]'(by omega) > ts[t] ∧ j = i) := by
+      rcases a5' with ⟨b1, b2, b3, b4⟩ | ⟨b1, b2, b3, b4⟩
+      · left
+        refine ⟨?_, b1, b4⟩
+        rw [← hcv]
+        split
+        · rename_i hm
+          have hz2 : ¬ ((0 : Nat) = 2) := by omega
+          simp only [hz2, if_false, b3 hm, Bool.false_eq_true]
+          exact b2
+        · exact b2
+      · right
+        refine ⟨?_, b1, b2⟩
+        rw [← hcv]
+        split
+        · rename_i hm
+          have hz2 : ¬ ((0 : Nat) = 2) := by omega
+          simp only [hz2, if_false, b4 hm, if_true]
+        · rename_i hm
+          exact b3 hm
+    have hw := vfT_window ts tt 0 maxt maxi hmt hmi (t+1) _ (by omega : (vfInner tt ts[t] 0 maxi hmi (i + 1) (tt[i]'(by omega) - ts[t]) (some i) (decide (tt[i]'(by omega) - ts[t] > 0))).1 - 1 < maxi)
+      (idx.setIfInBounds t v) lo (by omega)
+    by_cases hpt : p = t
+    · subst hpt
+      obtain ⟨w1, w2⟩ := hw
+      have hp' : p < (idx.setIfInBounds p v).size := by simp; omega
+      have hkeep := (w2 p hp' (by rw [w1]; exact hp')).1 (Or.inl (by omega))
+      have hval := (Array.getElem?_eq_getElem (by rw [w1]; exact hp')).trans (congrArg some hkeep)
+      have hset : (idx.setIfInBounds p v)[p]'hp' = v := by simp [Array.getElem_setIfInBounds]
+      rw [hset] at hval
+      rcases hsv with ⟨e1, e2, e3⟩ | ⟨e1, e2, e3⟩
+      · left
+        refine ⟨j, hj, by rw [hval, e1], by omega, e2, ?_⟩
+        intro q hq1 hq2 hq3
+        by_cases hqj : q ≤ j
+        · exact hss q j (by omega) (by omega) hqj
+        · have hj1 : j + 1 < maxi := by omega
+          rcases e3 hj1 with e4 | e4
+          · have := hss (j+1) q (by omega) (by omega) (by omega); omega
+          · omega
+      · right
+        refine ⟨by rw [hval, e1], ?_⟩
+        intro q hq1 hq2
+        subst e3
+        rcases hinv ht with e5 | e5
+        · have := hss j q (by omega) (by omega) (by omega); omega
+        · omega
+    · exact ih (t+1) _ (by omega) (by omega) (idx.setIfInBounds t v) (by simp; exact hsz)
+        (fun ht' => by
+          have hxx := hsq t (t+1) (by omega) (by omega) (by omega)
+          rcases hsv with ⟨_, e2, _⟩ | ⟨_, e2, e3⟩
+          · right
+            have : ∀ (h' : (vfInner tt ts[t] 0 maxi hmi (i + 1) (tt[i]'(by omega) - ts[t]) (some i) (decide (tt[i]'(by omega) - ts[t] > 0))).1 - 1 < tt.size),
+                tt[(vfInner tt ts[t] 0 maxi hmi (i + 1) (tt[i]'(by omega) - ts[t]) (some i) (decide (tt[i]'(by omega) - ts[t] > 0))).1 - 1]'h' = tt[j]'(by omega) := by
+              intro h'; congr 1
+            rw [this]; omega
+          · left
+            rcases hinv ht with e5 | e5
+            · omega
+            · subst e3; omega)
+        (by omega) p (by omega) hp2
 
 
 /-- concrete runs (mode 0 = before, 1 = closest, 2 = after); the first is the input that was
